@@ -244,6 +244,17 @@ class Engine:
                 fields[fname] = ObjV(fcls, {"__id__": IntV(fresh(f"{name}_{fname}"))})
             fields["__id__"] = IntV(fresh(name + "_id"))
             return ObjV(parts[0], fields)
+        if sort == "CellSetSeq":
+            # a list of sets of cells (e.g. the candidate shadings of one classical pattern)
+            n = fresh(name + "_n")
+            st.assume(n >= 0)
+            S3 = fresh_fun(name, z3.IntSort(), z3.IntSort(), z3.IntSort(), z3.BoolSort())
+
+            def mk_set(r, S3=S3):
+                out_ = SetV(lambda v, r=r: S3(Z(r), Z(v[0]), Z(v[1])), 2)
+                return out_
+
+            return SeqV(n, mk_set, "list", {"cellsets": S3})
         if sort == "opaque":
             return ObjV("opaque", {"__id__": IntV(fresh(name))})  # a value the function never inspects
         if sort == "CellSet":
@@ -524,9 +535,11 @@ class Engine:
             # far, and the lengths / last indices of the local lists).  goal == goal \/ instances: sound and
             # nothing is lost, but trigger-based instantiation now has ground instances to work with.
             cands = [c_ for c_ in consts if z3.is_int(c_)]
-            for v_ in st.env.values():
+            for nm_, v_ in st.env.items():
                 if isinstance(v_, (ListV, TupListV)):
                     cands += [v_.n, v_.n - 1]
+                elif nm_.startswith("__k") and isinstance(v_, IntV):
+                    cands.append(v_.t)
             seen_, inst_ = set(), []
             for t_ in cands[:10]:
                 if t_.get_id() not in seen_:
@@ -578,6 +591,7 @@ class Engine:
         sizes = [n_ for (_f, _g, n_) in self.perm_registry] + [v.t for v in getattr(self, "params", {}).values() if isinstance(v, IntV)]
         ob = Obligation(name, kind, self.func.qualname, hyps, goal2, model_vars=getattr(self, "model_vars", None), size_terms=sizes)
         ob.definitional = self.definitional
+        ob.budget_ms = getattr(self.contract.cls, "solver_ms", None) if self.contract is not None else None
         self.obls.append(ob)
 
     def check_post(self, st, val):
@@ -618,6 +632,13 @@ class Engine:
             hy.assume(f)
         for j, conj in enumerate(_conjuncts(B(goal))):
             self.emit("post@return", hy, conj, f"{tag}.{j}")
+        for vname, vfn in (getattr(K.cls, "views", None) or {}).items():
+            vg = vfn(c, *self.params.values(), val)
+            for f in c.side:
+                hy.assume(f)
+            c.side.clear()
+            for j, conj in enumerate(_conjuncts(B(vg))):
+                self.emit(f"post-view[{vname}]", hy, conj, f"{tag}.{j}")
 
     def adapt_result(self, val, K, c):
         if isinstance(val, ListV):
@@ -716,6 +737,12 @@ class Engine:
             return [("fall", st, None)]
         if isinstance(node, ast.Assign):
             val = self.ev(node.value, st)
+            shapes = getattr(self.contract.cls, "list_shapes", None) if self.contract is not None else None
+            if shapes and isinstance(val, ListV) and len(node.targets) == 1 and isinstance(node.targets[0], ast.Name) \
+                    and node.targets[0].id in shapes and isinstance(node.value, ast.List) and not node.value.elts:
+                # the contract declares the element shape of a list that starts empty (k-tuples of ints)
+                ar_ = shapes[node.targets[0].id]
+                val = ListV(0, lambda i, ar_=ar_: TupV([IntV(0)] * ar_))
             for tgt in node.targets:
                 self.assign(tgt, val, st)
             return [("fall", st, None)]
@@ -914,6 +941,7 @@ class Engine:
         body_st = st.fork()
         self.havoc(body_st, carried)
         k = fresh("k")
+        body_st.env[f"__k{ordinal}__"] = IntV(k)  # the iteration index (a witness candidate for existential goals)
         body_st.assume(z3.And(k >= 0, k < seq.n))
         body_st.assume(inv_formula(body_st, k))
         self.assign(node.target, seq.at(k), body_st)
@@ -1783,6 +1811,9 @@ class Engine:
                 return slow
 
             out_ = SetV(contains, ar)
+            n_e = z3.simplify(seq.n)
+            if z3.is_int_value(n_e) and n_e.as_long() == 0:
+                out_.is_empty = True
             if self.concrete:
                 n_c0 = z3.simplify(seq.n)
                 if z3.is_int_value(n_c0):
@@ -2193,13 +2224,20 @@ class Engine:
                     st.assume(f)
                 c.side.clear()
             return out if isinstance(out, V) else (BoolV(out) if isinstance(out, bool) else IntV(out))
-        mkey = (name,) + tuple(_ident(v) for v in vals)
+        mkey = (name, (getattr(self.contract.cls, "use_views", None) or {}).get(K.name) if self.contract is not None else None) + tuple(_ident(v) for v in vals)
         if mkey in self.call_memo:
             res, facts = self.call_memo[mkey]
         else:
             tmp = State()
             res = self.fresh_result(K, tmp)
-            if K.ensures:
+            view = (getattr(self.contract.cls, "use_views", None) or {}).get(K.name) if self.contract is not None else None
+            if view is not None:
+                # the caller asked for a named VIEW of the callee's postcondition: a weaker formula that the
+                # callee's own verification proves in addition to `ensures` (obligation post-view[...])
+                post = K.cls.views[view](c, *vals, res)
+                facts = tmp.pc + [B(post)] + c.side
+                c.side = []
+            elif K.ensures:
                 post = K.ensures(c, *vals, res)
                 facts = tmp.pc + [B(post)] + c.side
                 c.side = []
